@@ -105,6 +105,7 @@ def interface_sign(m, ifc, ids, fixed_tris):
         tot += s * mesh_solid_angle(c, m["meshes"][k][1], fixed_tris[k])
     if abs(tot - 4 * math.pi) < 1e-9: return 1
     if abs(tot + 4 * math.pi) < 1e-9: return -1
+    if abs(tot) < 1e-13: return 2       # the reader then draws random points until the angle is non-zero: not a function of the input
     return 0
 
 def inside_interface(m, ifc, p):
@@ -116,7 +117,7 @@ def inside_interface(m, ifc, p):
     return abs(tot) > 2 * math.pi
 
 def abstract(m, probes=(), old=False):
-    """integer wire of the description for the extracted model + float wire (conductivities by domain, -1 = unset)"""
+    """integer wire of the description for the extracted model (cond_wire appends the conductivity part)"""
     ids = point_ids(m["meshes"])
     ifs, doms = resolve(m)
     fixed = [local_fix(ts) if not is_consistent(ts) else list(ts) for _, _, ts in m["meshes"]]
@@ -140,9 +141,7 @@ def abstract(m, probes=(), old=False):
     w.append(len(probes))
     for p in probes:
         w += [1 if (ok and inside_interface(m, ifc, p)) else 0 for ifc, ok in zip(ifs, ok_if)]
-    cond = m.get("cond")
-    fl = [(cond[name] if cond is not None and name in cond else -1.0) for name, _ in m["domains"]]
-    return w, fl, dict(isign=isign, ifs=ifs, doms=doms)
+    return w, dict(isign=isign, ifs=ifs, doms=doms, unstable=(2 in isign))
 
 # ------------------------------------------------------------------ probes
 def probe_points(m, rng, n, margin=0.04):
@@ -337,18 +336,43 @@ def style_names(m, style):
     if style == "1.1u": return [str(k + 1) for k in range(len(m["meshes"]))], [str(k + 1) for k in range(len(m["interfaces"]))]
     return [str(k + 1) for k in range(len(m["interfaces"]))], [str(k + 1) for k in range(len(m["interfaces"]))]
 
-def write_cond(m, dirpath, rng=None, stem="model", extra=None):
+def write_cond(m, dirpath, rng=None, stem="model", extra=None, header=True):
     """conductivity file: header line, then 'name value' lines in any order, comments allowed.  `extra`: additional
-    raw lines (duplicates, unknown names) appended at random places"""
+    (name, value) entries (duplicates, unknown names) inserted at random places.  Returns (path, lines) with
+    lines = [("c",) | ("e", name, value)] in file order (what coq/Geom/CondFile.v reads)"""
     c = os.path.join(dirpath, stem + ".cond")
-    items = list(m["cond"].items())
+    items = [("e", k, v) for k, v in m["cond"].items()]
     if rng is not None: rng.shuffle(items)
-    L = ["# Properties Description 1.0 (Conductivities)"]
-    for k, v in items:
-        if rng is not None and rng.random() < 0.4: L.append(rng.choice(["", "# comment", "#" + k + " 5.0", "   # spaces before", "\t"]))
-        sep = rng.choice([" ", "\t", "   "]) if rng is not None else " "
-        L.append("%s%s%s" % (k, sep, _f(v)))
     for e in (extra or []):
-        L.insert(rng.randrange(1, len(L) + 1) if rng is not None else len(L), e)
+        items.insert(rng.randrange(0, len(items) + 1) if rng is not None else len(items), ("e", e[0], e[1]))
+    lines = []
+    for it in items:
+        if rng is not None and rng.random() < 0.4: lines.append(("c",))
+        lines.append(it)
+    if rng is not None and rng.random() < 0.3: lines.append(("c",))
+    L = ["# Properties Description 1.0 (Conductivities)" if header else "# Properties Description 1.0 (Conductivity)"]
+    for it in lines:
+        if it[0] == "c":
+            L.append(rng.choice(["# comment", "#" + (items[0][1] if items else "x") + " 5.0", "   # spaces before", "#", "# Air 3"]) if rng is not None else "# c")
+            if rng is not None and rng.random() < 0.3: L.append(rng.choice(["", "\t", "  "]))
+        else:
+            sep = rng.choice([" ", "\t", "   "]) if rng is not None else " "
+            L.append("%s%s%s" % (it[1], sep, _f(it[2])))
     with open(c, "w") as fh: fh.write("\n".join(L) + "\n")
-    return c
+    return c, lines
+
+def cond_wire(m, lines, has_cond, header=True):
+    """integer/float wire of the conductivity part of a case: names -> ids (domain names first)"""
+    ids = {}
+    def nid(n):
+        if n not in ids: ids[n] = len(ids)
+        return ids[n]
+    dn = [nid(n) for n, _ in m["domains"]]
+    w = [1 if has_cond else 0, 1 if header else 0, len(lines) if has_cond else 0]
+    fl = []
+    if has_cond:
+        for it in lines:
+            if it[0] == "c": w += [0, 0]
+            else: w += [1, nid(it[1])]; fl.append(float(it[2]))
+    w += dn
+    return w, fl
